@@ -657,6 +657,12 @@ class Interp:
         if rk == "func":
             fn = fr.fn.unit.fns.get(e.get("fid")) if e.get("fid") is not None else None
             return FuncRef(fn, e.get("bn"))
+        if rk == "smember":
+            for r in fr.fn.unit.records:
+                if r["bn"] == e.get("cls"):
+                    for sv in r.get("svars", []):
+                        if sv["n"] == e["n"] and sv.get("init") is not None:
+                            return self.eval(sv["init"], Frame(fr.fn, None))
         if rk in ("smember", "global"):
             raise AnalysisBroken("interp: non-constant global %s at %s" % (e["n"], fr.fn.loc(e)))
         raise AnalysisBroken("interp: reference kind %r at %s" % (rk, fr.fn.loc(e)))
@@ -685,6 +691,9 @@ class Interp:
 
     def e_initlist(self, e, fr):
         vals = [copy.deepcopy(self.rv(self.eval(a, fr))) for a in e.get("a", []) if a]
+        ts0 = fr.fn.type(e.get("t")).replace("const ", "")
+        if ts0.startswith("std::array<") and len(vals) == 1 and isinstance(vals[0], PyVec):
+            return vals[0]      # std::array{ {elements...} }: the single C-array member
         rec = fr.fn.unit.rec_by_type.get(e.get("t"))
         if rec is not None:
             # aggregate initialisation of a library record
@@ -743,6 +752,8 @@ class Interp:
         if op == "!":
             return not self.truth(x, e["e"])
         if op == "-":
+            if isinstance(x, Poly):
+                return x * Poly.of(-1)
             if isinstance(x, (int, float)) and not isinstance(x, bool):
                 return -x
             if isinstance(x, Interval):
@@ -770,6 +781,8 @@ class Interp:
                 return Poly.of(a) + Poly.of(b)
             if op == "*":
                 return Poly.of(a) * Poly.of(b)
+            if op == "-":
+                return Poly.of(a) + Poly.of(b) * Poly.of(-1)
             raise AnalysisBroken("interp: operator %s on symbolic polynomial values" % op)
         if not isinstance(a, (int, float, bool)) or not isinstance(b, (int, float, bool)):
             return self.world.sym_binop(op, a, b)
@@ -993,6 +1006,10 @@ class Interp:
 
         if bn in ("std::move", "std::forward", "std::as_const", "std::addressof"):
             return A(0)
+        if name == "operator=" and e.get("obj") is not None and \
+                bn in ("std::pair::operator=", "std::tuple::operator=", "std::optional::operator="):
+            r = self.eval(e["obj"], fr)
+            return self.assign(fr, e, r, A(0))
         if name == "operator=" and e.get("lib") and e.get("fid") is None and e.get("obj") is not None:
             # defaulted copy / move assignment of a library record: member-wise copy
             r = OBJ()
@@ -1131,6 +1148,8 @@ class Interp:
                 return Iter(c, 0, -1)
             if name == "resize":
                 n = V(0)
+                if isinstance(n, list) and len(n) == 1:
+                    n = n[0]            # resize({ n })
                 fill = V(1) if len(args_n) > 1 else None
                 while len(c) > n:
                     c.pop()
